@@ -291,6 +291,20 @@ class ExprEval:
             return self.index_list(st, base, key, node)
         if isinstance(base, OptV):
             raise Unsupported("subscript on a possibly-None value")
+        if isinstance(base, Opaque) and base.tag == "frame" and isinstance(key, str) and key in ("ilocs", "labels") and isinstance(base.payload, (Arr, Lst)) \
+                and not (isinstance(base.payload, Lst) and isinstance(base.payload.elem, tuple)):
+            # single-column model of the detectors' frames: the payload IS the column `ilocs` (sparse change points) / `labels` (dense output)
+            self.note_assumption(f"pandas: frame['{key}'] is the column holding the frame's modelled values")
+            return Opaque("series", base.payload)
+        if isinstance(base, Opaque) and base.tag == "frame" and isinstance(key, str) and isinstance(base.payload, Lst) and isinstance(base.payload.elem, tuple):
+            rows = base.payload         # rows (start, end[, columns]) of an anomaly detector's sparse frame
+            kinds = base.payload.elem[1]
+            if key == "ilocs":
+                self.note_assumption("pandas: frame['ilocs'] of a sparse anomaly frame is the left-closed IntervalIndex column of its (start, end) rows")
+                return Opaque("series", Opaque("intervals", rows))
+            if key == "icolumns" and len(kinds) == 3:
+                self.note_assumption("pandas: frame['icolumns'] holds the affected-column arrays of the rows, in order")
+                return Opaque("series", Lst(rows.length, lambda q: rows.get(q)[2], "arr:int"))
         raise Unsupported(f"subscript on {base!r}")
 
     def index_list(self, st, lst: Lst, key, node):
@@ -351,6 +365,18 @@ class ExprEval:
             raise Unsupported("tuple method")
         if isinstance(base, Opaque) and base.tag in ("series", "frame") and name == "values":
             return base.payload
+        if isinstance(base, Opaque) and base.tag == "series" and name == "array" and isinstance(base.payload, Opaque) and base.payload.tag == "intervals":
+            return base.payload
+        if isinstance(base, Opaque) and base.tag == "intervals":
+            rows = base.payload
+            if name in ("left", "right"):
+                comp = 0 if name == "left" else 1
+                return Arr((rows.length,), lambda q, comp=comp: rows.get(q)[comp], "int")
+            if name == "closed":
+                return "left"       # sparse frames are built by _format_sparse_output(closed="left") (assumption recorded with frame['ilocs'])
+        if isinstance(base, Opaque) and base.tag == "series" and name in ("to_list", "tolist", "to_numpy"):
+            self.note_assumption(f"pandas: Series.{name}() returns the series' values in order")
+            return FuncRef("lambda0", base.payload, name=f"Series.{name}")
         if isinstance(base, Opaque) and base.tag == "super":
             obj, ci = base.payload
             mro = self.repo.mro(obj.cls)
@@ -458,6 +484,9 @@ class ExprEval:
                 if m is not n:
                     n = num_min(n, m)
             return n, (lambda i: tuple(item(i) for _, item in subs))
+        if isinstance(it, Opaque) and it.tag in ("series", "index") and isinstance(it.payload, (Arr, Lst)):
+            self.note_assumption("pandas: iterating a Series / Index yields its values in order")
+            return self.iter_protocol(st, it.payload, node)
         if isinstance(it, Lst):
             return it.length, it.get
         if isinstance(it, tuple):
